@@ -11,7 +11,12 @@ Scenario kinds
         through prepare()/write()/write_eof() for GET/HEAD, HTTP/1.0/1.1, with
         compression and chunking; same faults.
   cli   a real ClientSession request with a body of every kind against a
-        recording raw server (CS sample, client half); same faults.
+        recording raw server (CS sample, client half); same faults.  With "mw":
+        a client middleware replaces the body through ClientRequest.update_body()
+        (once or twice, any body kind -> any body kind) before the request is
+        sent: the message on the wire must be framed for the body that is sent.
+        With "resend": the middleware calls handler(req) again (retry middleware):
+        each send must be one well-formed request carrying the whole body.
   srv   a real web server (AppRunner/TCPSite/RequestHandler) answering a scripted
         raw client with responses built from the same specs (CS sample, server half).
   file  (props/_c04w3.py) web.FileResponse behind the real server while another
@@ -176,6 +181,87 @@ def gen_respspec(rng):
     return spec
 
 
+def gen_cli(rng):
+    scn = {"kind": "cli", "method": rng.choice(["POST", "POST", "PUT", "PATCH", "GET", "DELETE"]), "body": gen_body(rng),
+           "chunked": rng.choice([None, None, True]), "compress": rng.choice([False, False, "deflate", "gzip"]),
+           "expect100": rng.random() < 0.15, "hval": rng.choice(["v", "v"] + HOSTILE),
+           "policy": rng.choice(["whole", "mss", "small", "mixed"]), "lat": rng.choice([0, 0, 1, 2])}
+    scn.update(_gen_faults(rng, 4))
+    if scn["kill"] is not None and "at_op" in scn["kill"]:
+        scn["kill"] = {"at_ms": rng.choice([0, 1, 2, 6]), "kind": scn["kill"]["kind"]}
+    if scn["hold"] is not None:
+        scn["hold"] = {"at_ms": rng.choice([0, 0, 1, 2]), "release_ms": scn["hold"]["release_ms"]}
+    return scn
+
+
+# bodies whose size aiohttp cannot know in advance (sent chunked)
+UNSIZED_KINDS = ["aiter", "multipart_nosize"]
+MW_SHARE = 0.04
+
+
+def gen_cli_mw(rng):
+    """kind cli with a client middleware that swaps the body through ClientRequest.update_body() (every transition
+    between no body / body of known size / body of unknown size) and / or sends the request again (retry middleware:
+    the same request object and payload written a second and third time), under the same options and faults"""
+    scn = gen_cli(rng)
+    if rng.random() < 0.25:
+        scn["body"] = dict(scn["body"], kind="none")
+    r = rng.random()
+    swap, again = r < 0.8, r >= 0.6
+    ups = []
+    if swap:
+        for _ in range(1 if rng.random() < 0.8 else 2):
+            b = gen_body(rng)
+            r = rng.random()
+            if r < 0.35:
+                b["kind"] = rng.choice(UNSIZED_KINDS)
+            elif r < 0.45:
+                b["kind"] = "none"
+            ups.append(b)
+    scn["mw"] = ups
+    scn["resend"] = None
+    if again:
+        scn["resend"] = rng.choice([1, 1, 2])
+        # only a body that can be sent again: an async iterator is used up by the first send
+        last = ups[-1] if ups else scn["body"]
+        while last["kind"] in UNSIZED_KINDS:
+            last["kind"] = rng.choice(BODY_KINDS)
+        last["size"] = min(last["size"], 65537)
+    if rng.random() < 0.4:
+        scn.update(hold=None, kill=None, cancel=None)
+    if rng.random() < 0.7:
+        scn["hval"] = "v"  # a refused header value ends the run before anything is framed
+    return scn
+
+
+def enum_mw_cases():
+    """update_body() transitions completely for one small configuration: body the request was built with x body
+    swapped in x method with / without request-body semantics x chunked asked for or not x compression; then every
+    body kind that can be sent again sent twice by a retry middleware (as built, and after a swap)"""
+    first = ["none", "bytes", "file", "stringio", "aiter", "multipart", "multipart_nosize", "formdata"]
+    second = []
+    for k in BODY_KINDS:
+        if k not in second:
+            second.append(k)
+    base = {"kind": "cli", "expect100": False, "hval": "v", "policy": "whole", "lat": 0,
+            "hold": None, "kill": None, "cancel": None, "highwater": None}
+    for method in ("POST", "GET"):
+        for chunked, compress in ((None, False), (True, False), (None, "deflate")):
+            for a in first:
+                for b in second:
+                    yield dict(base, method=method, body={"kind": a, "size": 10, "pieces": 1},
+                               mw=[{"kind": b, "size": 9, "pieces": 3}], resend=None, chunked=chunked, compress=compress)
+    for method in ("POST", "GET"):
+        for chunked, compress in ((None, False), (True, False), (None, "deflate")):
+            for b in second:
+                if b in UNSIZED_KINDS:
+                    continue
+                yield dict(base, method=method, body={"kind": b, "size": 10, "pieces": 3}, mw=[], resend=1,
+                           chunked=chunked, compress=compress)
+                yield dict(base, method=method, body={"kind": "bytes", "size": 10, "pieces": 1},
+                           mw=[{"kind": b, "size": 9, "pieces": 3}], resend=1, chunked=chunked, compress=compress)
+
+
 FILE_SHARE = 0.09
 
 
@@ -185,7 +271,9 @@ def gen(rng, tier):
         from props import _c04w3 as W3
 
         return W3.gen_file(rng)
-    r = (r - FILE_SHARE) / (1.0 - FILE_SHARE)  # the other kinds keep their proportions
+    if r < FILE_SHARE + MW_SHARE:
+        return gen_cli_mw(rng)
+    r = (r - FILE_SHARE - MW_SHARE) / (1.0 - FILE_SHARE - MW_SHARE)  # the other kinds keep their proportions
     if r < 0.48:
         return gen_sw(rng)
     if r < 0.74:
@@ -198,16 +286,7 @@ def gen(rng, tier):
             scn["hold"]["at_op"] = 0
         return scn
     if r < 0.89:
-        scn = {"kind": "cli", "method": rng.choice(["POST", "POST", "PUT", "PATCH", "GET", "DELETE"]), "body": gen_body(rng),
-               "chunked": rng.choice([None, None, True]), "compress": rng.choice([False, False, "deflate", "gzip"]),
-               "expect100": rng.random() < 0.15, "hval": rng.choice(["v", "v"] + HOSTILE),
-               "policy": rng.choice(["whole", "mss", "small", "mixed"]), "lat": rng.choice([0, 0, 1, 2])}
-        scn.update(_gen_faults(rng, 4))
-        if scn["kill"] is not None and "at_op" in scn["kill"]:
-            scn["kill"] = {"at_ms": rng.choice([0, 1, 2, 6]), "kind": scn["kill"]["kind"]}
-        if scn["hold"] is not None:
-            scn["hold"] = {"at_ms": rng.choice([0, 0, 1, 2]), "release_ms": scn["hold"]["release_ms"]}
-        return scn
+        return gen_cli(rng)
     nreq = rng.randint(1, 3)
     scn = {"kind": "srv", "specs": [gen_respspec(rng) for _ in range(nreq)],
            "pol_c2s": rng.choice(["whole", "small", "mixed"]), "pol_s2c": rng.choice(["whole", "mss", "small", "mixed"]),
@@ -291,6 +370,24 @@ def shrink(scn):
             yield dict(scn, body=dict(b, size=b["size"] // 2))
         if b["pieces"] > 1:
             yield dict(scn, body=dict(b, pieces=1))
+        ups = scn.get("mw")
+        if scn.get("resend"):
+            yield dict(scn, resend=None)
+            if scn["resend"] > 1:
+                yield dict(scn, resend=1)
+        if ups:
+            yield dict(scn, mw=None)
+            if len(ups) > 1:
+                for i in range(len(ups)):
+                    yield dict(scn, mw=ups[:i] + ups[i + 1:])
+            if b["kind"] not in ("none", "bytes"):
+                yield dict(scn, body=dict(b, kind="bytes"))
+                yield dict(scn, body=dict(b, kind="none"))
+            for i, u in enumerate(ups):
+                if u["size"] > 1:
+                    yield dict(scn, mw=ups[:i] + [dict(u, size=u["size"] // 2)] + ups[i + 1:])
+                if u["pieces"] > 1:
+                    yield dict(scn, mw=ups[:i] + [dict(u, pieces=1)] + ups[i + 1:])
 
 
 # ---------------------------------------------------------------------------
@@ -1094,22 +1191,52 @@ def run_cli(scn, ch, log):
         net.wire = []
         net.listen(_RecServer, "10.0.0.1", 80)
         net.dns["h.test"] = ["10.0.0.1"]
-        trs = {}
+        trs = {"all": []}
 
         def on_connect(ctr, str_):
             trs["c"], trs["s"] = ctr, str_
+            trs["all"].append(ctr)
             if scn["highwater"] is not None:
                 ctr.set_write_buffer_limits(high=scn["highwater"])
             arm_faults(w, scn, ctr, box, probes)
         net.on_connect = on_connect
-        info = {"status": None}
+        info = {"status": None, "sends": 0}
         box = {}
+
+        ups = scn.get("mw") or []
+        resend = scn.get("resend") or 0
+
+        def sizedness(t):
+            return "none" if t == "none" else ("unsized" if t in UNSIZED_KINDS else "sized")
+
+        async def middleware(req, handler):
+            # a client middleware that replaces the body (a signing / encrypting / re-encoding middleware does this)
+            # and / or sends the request again (the retry middleware of the documentation: handler(req) in a loop).
+            # (it runs again, with fresh body objects, when the session itself sends the request a second time)
+            chain = [info["chain"][0]]
+            for b in ups:
+                nobj, nexp, ntag = make_body(b, files)
+                loop.note("update_body", ntag)
+                await req.update_body(nobj)
+                chain.append(ntag)
+                info.update(expected=nexp, tag=ntag, chain=chain)
+                probes["update_body_" + sizedness(chain[-2]) + ">" + sizedness(ntag)] = 1
+            info["sends"] += 1
+            resp = await handler(req)
+            for _ in range(resend):
+                resp.release()
+                loop.note("resend", info["tag"])
+                info["sends"] += 1
+                probes["resent_by_middleware"] = 1
+                resp = await handler(req)
+            return resp
 
         async def prog():
             obj, expected, tag = make_body(scn["body"], files)
-            info.update(expected=expected, tag=tag)
+            info.update(expected=expected, tag=tag, chain=[tag])
             conn = aiohttp.TCPConnector(resolver=SimResolver(net))
-            async with aiohttp.ClientSession(connector=conn, timeout=aiohttp.ClientTimeout(total=20)) as s:
+            skw = {"middlewares": (middleware,)} if (ups or resend) else {}
+            async with aiohttp.ClientSession(connector=conn, timeout=aiohttp.ClientTimeout(total=20), **skw) as s:
                 kw = {}
                 if scn["chunked"]:
                     kw["chunked"] = True
@@ -1131,7 +1258,16 @@ def run_cli(scn, ch, log):
         ctr = trs.get("c")
         wire = wire_of(net, ctr.name) if ctr is not None else b""
         what = f"client {scn['method']} body={info.get('tag')} chunked={scn['chunked']} compress={scn['compress']}"
+        via = ""
+        if ups and len(info.get("chain", ())) > 1:
+            # the body on the wire was put in place by ClientRequest.update_body(): part of the class of the failure
+            chain = info["chain"]
+            what += " body swapped by a middleware through update_body(): " + " -> ".join(chain)
+            via = f":update_body({scn['method']}):" + ">".join(sizedness(t) for t in chain)
+        if resend:
+            what += f" sent {info['sends']}x by a retry middleware (handler(req) called again with the same request)"
         stalled = False
+        deferred_exc = None
         if exc is not None:
             if not wire:
                 probes["refused_" + type(exc).__name__] = 1
@@ -1141,59 +1277,82 @@ def run_cli(scn, ch, log):
                 probes["timeout_under_backpressure"] = 1
             elif isinstance(exc, asyncio.TimeoutError):
                 stalled = True  # nobody interfered and the server is reading: judged below from the wire
+            elif resend and isinstance(exc, aiohttp.ClientResponseError):
+                # a complaint about the *answer*: when an earlier send left stray bytes on the connection the recording
+                # server answers them too.  Judged from the wire first; reported if the wire explains nothing
+                deferred_exc = exc
             else:
                 V.add("no_unexpected_error", f"{type(exc).__name__}:{info.get('tag')}", f"{what}: raised {exc!r}; wire head {wire[:160]!r}")
         clean = not killed and not cancelled and not blocked_forever and exc is None
-        if wire:
-            msgs, verdict = http1.parse_requests(wire)
+        # one call, one request - unless a middleware sent it again: then every connection used is judged, and each of the
+        # requests must be the one well-formed message carrying the supplied body
+        allowed = max(1, info["sends"]) if resend else 1
+        judged = [(c is ctr, wire_of(net, c.name)) for c in trs["all"]] if resend else [(True, wire)]
+        total_msgs = 0
+        for is_last, wire_ in judged:
+            if not wire_:
+                continue
+            msgs, verdict = http1.parse_requests(wire_)
+            total_msgs += len(msgs)
+            tailw = wire_[msgs[-1]["end"]:] if msgs else wire_  # the request being written when the run ended
+            stalled_ = stalled and is_last
             if verdict[0] == "REJECT" and msgs:
-                after = wire[msgs[0]["end"]:]
-                V.add("one_well_formed_request", f"bytes_after_complete_request:{info.get('tag')}:chunked={scn['chunked']}",
-                      f"{what}: the head declares {[(a, b) for a, b in msgs[0]['headers'] if a.lower() in (b'content-length', b'transfer-encoding')]} "
+                after = tailw
+                V.add("one_well_formed_request", f"bytes_after_complete_request:{info.get('tag')}:chunked={scn['chunked']}{via}",
+                      f"{what}: the head declares {[(a, b) for a, b in msgs[-1]['headers'] if a.lower() in (b'content-length', b'transfer-encoding')]} "
                       f"so the request ends after its head/body, but {len(after)} more bytes were written: {after[:60]!r}")
             elif verdict[0] == "REJECT":
-                V.add("one_well_formed_request", f"framer:{verdict[2]}:{info.get('tag')}",
+                V.add("one_well_formed_request", f"framer:{verdict[2]}:{info.get('tag')}{via}",
                       f"{what}: strict framer rejects the bytes written at offset {verdict[1]} ({verdict[2]}): "
-                      f"{wire[max(0, verdict[1] - 30):verdict[1] + 80]!r}")
-            elif len(msgs) > 1:
-                V.add("one_well_formed_request", f"second_message:{info.get('tag')}", f"{what}: {len(msgs)} requests on the wire for one call")
-            elif stalled and verdict[0] == "INCOMPLETE" and b"\r\n\r\n" in wire:
-                hd, off = refc.head_lines(wire)
+                      f"{wire_[max(0, verdict[1] - 30):verdict[1] + 80]!r}")
+            elif len(msgs) > allowed or total_msgs > allowed:
+                V.add("one_well_formed_request", f"second_message:{info.get('tag')}",
+                      f"{what}: {total_msgs} requests on the wire for {'one call' if not resend else str(allowed) + ' sends'}")
+            elif stalled_ and verdict[0] == "INCOMPLETE" and b"\r\n\r\n" in tailw:
+                hd, off = refc.head_lines(tailw)
                 cl = [refc_value(ln) for ln in (hd or []) if ln.lower().startswith(b"content-length:")]
                 if cl:
                     V.add("declared_length_is_carried", f"short_body:{info.get('tag')}",
                           f"{what}: aiohttp declared Content-Length {cl[0].decode()} for a {info.get('tag')} body but wrote "
-                          f"{len(wire) - off} bytes; the server waits for the rest and the call times out")
+                          f"{len(tailw) - off} bytes; the server waits for the rest and the call times out")
                 else:
-                    V.add("complete_after_eof", f"stalled_incomplete_request:{info.get('tag')}", f"{what}: request never completed: {wire[-80:]!r}")
-            elif stalled:
-                V.add("no_unexpected_error", f"TimeoutError:{info.get('tag')}", f"{what}: timed out; framer verdict {verdict}; wire head {wire[:160]!r}")
+                    V.add("complete_after_eof", f"stalled_incomplete_request:{info.get('tag')}", f"{what}: request never completed: {wire_[-80:]!r}")
+            elif stalled_:
+                V.add("no_unexpected_error", f"TimeoutError:{info.get('tag')}", f"{what}: timed out; framer verdict {verdict}; wire head {wire_[:160]!r}")
             elif clean and verdict[0] == "INCOMPLETE":
                 V.add("complete_after_eof", f"incomplete_request:{info.get('tag')}",
                       f"{what}: request call returned status {info['status']} but the request on the wire is incomplete: "
-                      f"head {wire[:wire.find(b'\r\n\r\n') + 4]!r} body bytes {len(wire) - wire.find(b'\r\n\r\n') - 4}")
+                      f"head {tailw[:tailw.find(b'\r\n\r\n') + 4]!r} body bytes {len(tailw) - tailw.find(b'\r\n\r\n') - 4}")
             elif msgs:
-                m = msgs[0]
-                tagv = [b for a, b in m["headers"] if a.lower() == b"x-tag"]
-                if len(tagv) != 1 or tagv[0] != scn["hval"].encode("utf-8", "surrogatepass").strip(b" \t"):
-                    V.add("field_line_exact", "x_tag_differs", f"{what}: supplied X-Tag {scn['hval']!r}, on the wire {tagv!r}")
-                ce = [b for a, b in m["headers"] if a.lower() == b"content-encoding"]
-                body = m["body"]
-                ok = True
-                if ce:
-                    raw_len = len(body)
-                    body, finished, unused, err = refc.decode_content(ce[0].decode("latin-1"), body)
-                    # a zero-length body under a Content-Encoding is taken as the encoding of nothing
-                    if raw_len == 0 and not info["expected"]:
-                        finished = True
-                    if err is not None or unused or not finished:
-                        ok = False
-                        V.add("compressed_stream", f"bad:{info.get('tag')}", f"{what}: compressed body err={err} unused={len(unused)} finished={finished}")
-                if ok:
-                    check_body(V, body, info["expected"], complete=True, tag=info.get("tag"), what=what)
+                for k, m in enumerate(msgs):
+                    what_ = what if not resend else f"{what}, request #{k + 1} on its connection"
+                    tagv = [b for a, b in m["headers"] if a.lower() == b"x-tag"]
+                    if len(tagv) != 1 or tagv[0] != scn["hval"].encode("utf-8", "surrogatepass").strip(b" \t"):
+                        V.add("field_line_exact", "x_tag_differs", f"{what_}: supplied X-Tag {scn['hval']!r}, on the wire {tagv!r}")
+                    ce = [b for a, b in m["headers"] if a.lower() == b"content-encoding"]
+                    body = m["body"]
+                    ok = True
+                    if ce:
+                        raw_len = len(body)
+                        body, finished, unused, err = refc.decode_content(ce[0].decode("latin-1"), body)
+                        # a zero-length body under a Content-Encoding is taken as the encoding of nothing
+                        if raw_len == 0 and not info["expected"]:
+                            finished = True
+                        if err is not None or unused or not finished:
+                            ok = False
+                            V.add("compressed_stream", f"bad:{info.get('tag')}", f"{what_}: compressed body err={err} unused={len(unused)} finished={finished}")
+                    if ok:
+                        check_body(V, body, info["expected"], complete=True, tag=info.get("tag"), what=what_)
+                if verdict[0] == "INCOMPLETE":
+                    probes["partial_request"] = 1
             elif verdict[0] == "INCOMPLETE":
                 # prefix of one request: head (if complete) must be well formed - the framer did not reject; nothing more to say
                 probes["partial_request"] = 1
+        if deferred_exc is not None and not V.items:
+            V.add("no_unexpected_error", f"{type(deferred_exc).__name__}:{info.get('tag')}", f"{what}: raised {deferred_exc!r}; wire head {wire[:160]!r}")
+        if resend and clean and not V.items and total_msgs != info["sends"]:
+            V.add("complete_after_eof", f"request_missing:{info.get('tag')}",
+                  f"{what}: every send was answered but only {total_msgs} complete requests are on the wire")
         loop.run_sim(None, vt_cap=loop.time() + 1.0, step_cap=loop.steps + 10_000)
         close_files(files)
         if loop.exc_contexts:
@@ -1211,7 +1370,7 @@ def run_cli(scn, ch, log):
         probes["cli_" + str(info.get("tag"))] = 1
         nontrivial = bool(f.get("pause_writing") or killed or cancelled or f.get("exec_early") or f.get("exec_late"))
         res = {"violations": V.items, "nontrivial": nontrivial, "sig": sst["sig"], "digest": sst["digest"], "steps": sst["steps"],
-               "vtime": sst["vtime"], "faults": f, "probes": probes, "shape": f"cli-{info.get('tag')}-{scn['chunked']}-{scn['compress']}"}
+               "vtime": sst["vtime"], "faults": f, "probes": probes, "shape": f"cli-{info.get('tag')}-{scn['chunked']}-{scn['compress']}" + ("-mw" if ups else "") + ("-resend" if resend else "")}
         if log:
             res["event_log"] = loop.event_log
             res["debug"] = {"wire": wire[:600], "exc": repr(exc)}
